@@ -250,6 +250,24 @@ impl Native {
         unsafe { std::slice::from_raw_parts(a.alias, a.desc.len) }
     }
 
+    /// Read guest memory (through the host alias). None if the range is not inside one arena.
+    pub fn peek(&self, addr: u64, len: usize) -> Option<Vec<u8>> {
+        let a = self.arenas.iter().find(|a| addr >= a.desc.base && addr + len as u64 <= a.desc.base + a.desc.len as u64)?;
+        let off = (addr - a.desc.base) as usize;
+        Some(unsafe { std::slice::from_raw_parts(a.alias.add(off), len) }.to_vec())
+    }
+
+    /// Write guest memory (through the host alias), regardless of the guest-side protection.
+    pub fn poke(&self, addr: u64, data: &[u8]) -> bool {
+        match self.arenas.iter().find(|a| addr >= a.desc.base && addr + data.len() as u64 <= a.desc.base + a.desc.len as u64) {
+            Some(a) => {
+                unsafe { ptr::copy_nonoverlapping(data.as_ptr(), a.alias.add((addr - a.desc.base) as usize), data.len()) };
+                true
+            }
+            None => false,
+        }
+    }
+
     /// Would an access of `len` bytes at `addr` touch memory that belongs to the host process?
     /// (Kernel-half and non-canonical addresses fault natively without touching anything.)
     pub fn touches_host(&self, addr: u64, len: u64) -> bool {
